@@ -316,6 +316,51 @@ fn selection_grid(rep: &mut Report, n: usize, second: bool) {
     }
 }
 
+/// Check timeouts, with the configuration given both ways (the wrapper builder's own setters
+/// and a HealthCheckConfig built separately and passed with `with_config`): a check that
+/// answers within its timeout counts with its answer - also when the timeout is longer than
+/// the check interval - and a check that takes longer than its timeout counts as a failure.
+fn timeout_grid(rep: &mut Report) {
+    use tower_resilience_healthcheck::HealthCheckConfig;
+    let mut reported = std::collections::BTreeSet::new();
+    // (interval ms, timeout ms, how long every check takes ms, the status every check must end in)
+    let cases: [(u64, u64, u64, HealthStatus); 4] = [(40, 100, 60, HealthStatus::Healthy), (40, 100, 130, HealthStatus::Unhealthy), (100, 30, 20, HealthStatus::Healthy), (100, 30, 50, HealthStatus::Unhealthy)];
+    for via_config in [false, true] {
+        for (interval, timeout, takes, want) in cases.iter().copied() {
+            let w = World::new(0, 10, Mode::Script, 1);
+            let checker = move |_r: &String| async move {
+                tokio::time::sleep(Duration::from_millis(takes)).await;
+                HealthStatus::Healthy
+            };
+            let b = HealthCheckWrapper::builder().with_context("r0".to_string(), "r0").with_checker(checker);
+            let wrapper = if via_config {
+                b.with_config(HealthCheckConfig::builder().interval(Duration::from_millis(interval)).initial_delay(Duration::ZERO).timeout(Duration::from_millis(timeout)).failure_threshold(1).success_threshold(1).build()).build()
+            } else {
+                b.with_interval(Duration::from_millis(interval)).with_initial_delay(Duration::ZERO).with_timeout(Duration::from_millis(timeout)).with_failure_threshold(1).with_success_threshold(1).build()
+            };
+            w.block_on(wrapper.start());
+            // long enough for several checks to have been decided either way
+            w.block_on(async { tokio::time::sleep(Duration::from_millis(6 * (interval + timeout + takes))).await });
+            let st = w.block_on(wrapper.get_status("r0"));
+            w.block_on(wrapper.stop());
+            rep.evaluations += 1;
+            rep.distinct.insert(format!("timeouts|{via_config}|{interval}|{timeout}|{takes}|{st:?}"));
+            rep.witness(if want == HealthStatus::Healthy { "slow_check_within_its_timeout_counted" } else { "check_slower_than_its_timeout_failed" }, 1);
+            if st != Some(want) && reported.insert(format!("{via_config}/{want:?}")) {
+                rep.violations.push(Violation {
+                    property: "C18".into(),
+                    kind: if want == HealthStatus::Healthy { "check_within_timeout_counted_as_failed".into() } else { "check_beyond_timeout_not_failed".into() },
+                    site: "check_timeout".into(),
+                    config: format!("check timeouts configured_via={}", if via_config { "HealthCheckConfig::builder + with_config" } else { "wrapper builder setters" }),
+                    history: json!({"interval_ms": interval, "timeout_ms": timeout, "every_check_takes_ms": takes}),
+                    detail: format!("every check answers Healthy after {takes}ms (interval {interval}ms, timeout {timeout}ms): published status {st:?}, expected {want:?}"),
+                    log: vec![],
+                });
+            }
+        }
+    }
+}
+
 fn hist_configs(tier: Tier) -> Vec<Hist> {
     let mut v = vec![];
     let top = tier.pick(3, 4);
@@ -377,6 +422,9 @@ fn main() {
         }
         rep.extra.insert("abstraction_validation".into(), json!({"depth": 5, "mismatches": mism}));
     }
+    timeout_grid(&mut rep);
+    rep.require_witness("slow_check_within_its_timeout_counted");
+    rep.require_witness("check_slower_than_its_timeout_failed");
     // quick: 3 resources, every status vector and every vector one check later (64 x 64);
     // thorough: additionally 4 resources (256 vectors)
     selection_grid(&mut rep, 3, true);
